@@ -1306,7 +1306,7 @@ def run(ctx):
         if i % 10 == 0:
             c['probe'] = True
         cases.append(c)
-    for i in range(ctx.budget(36, 400)):
+    for i in range(ctx.budget(24, 400)):
         cases.append(gen_gamma_case(ctx, rng, adversarial=(i % 6 == 5)))
     for _ in range(ctx.budget(40, 400)):
         cases.append(gen_hist_ts_case(ctx, rng))
